@@ -18,6 +18,8 @@
 From Coq Require Import List Arith ZArith Lia Bool.
 From L4.gen Require Import Shape.
 Import ListNotations.
+Close Scope Z_scope.
+Open Scope nat_scope.
 
 Definition addr := nat.
 Definition cid := nat.
@@ -102,7 +104,7 @@ Inductive ev :=
 | ERoute (p : pkt) (c : cid)              (* loop put p into c's readCh *)
 | EDrop (p : pkt) (c : cid)               (* loop dropped p because c had signalled closure *)
 | EForget (a : addr) (c : cid) (hit : bool) (* loop processed a close notification; hit: an entry was removed *)
-| ERead (c : cid) (p : pkt) (off len : nat) (* Read returned bytes [off, off+len) of p *)
+| ERead (c : cid) (p : pkt) (fresh : bool) (off len : nat) (* Read returned bytes [off, off+len) of p; fresh: p was taken from readCh by this call *)
 | EEof (c : cid)                          (* Read notified the loop and returned io.EOF *)
 | EDeadline (c : cid)                     (* Read returned os.ErrDeadlineExceeded *)
 | EWrite (c : cid) (w : nat) (a : addr)   (* Write sent payload w to address a *)
@@ -287,13 +289,13 @@ Definition exec (g : cfg) (s : state) (t : step) : option state :=
           | Some (p, off) =>
               let take := Nat.min n (size p - off) in
               Some (with_conn s c (set_last k (readq k) (if off + take <? size p then Some (p, off + take) else None))
-                              [ERead c p off take])
+                              [ERead c p false off take])
           | None =>
               match readq k with
               | p :: q =>
                   let take := Nat.min n (size p) in
                   Some (with_conn s c (set_last k q (if take <? size p then Some (p, take) else None))
-                                  [ERead c p 0 take])
+                                  [ERead c p true 0 take])
               | [] => None
               end
           end
@@ -382,9 +384,9 @@ Fixpoint run (g : cfg) (s : state) (ts : list step) : option state :=
 
 Definition arrivals (tr : list ev) : list pkt :=
   flat_map (fun e => match e with EArr p => [p] | _ => [] end) tr.
-(* datagrams association c started to read (offset 0), in order *)
+(* datagrams association c took from its readCh, in order *)
 Definition reads_of (c : cid) (tr : list ev) : list pkt :=
-  flat_map (fun e => match e with ERead c' p 0 _ => if Nat.eqb c' c then [p] else [] | _ => [] end) tr.
+  flat_map (fun e => match e with ERead c' p true _ _ => if Nat.eqb c' c then [p] else [] | _ => [] end) tr.
 Definition routed_to (c : cid) (tr : list ev) : list pkt :=
   flat_map (fun e => match e with ERoute p c' => if Nat.eqb c' c then [p] else [] | _ => [] end) tr.
 Definition routed (tr : list ev) : list pkt :=
@@ -404,3 +406,153 @@ Inductive subseq {A} : list A -> list A -> Prop :=
 (* an association is live while it has neither told the loop that it ended nor begun Close *)
 Definition ended (c : cid) (tr : list ev) : bool :=
   existsb (fun e => match e with EEof c' => Nat.eqb c' c | ERet c' => Nat.eqb c' c | _ => false end) tr.
+
+(* ---- acceptance of an observed event log ----
+   Boolean conditions that every trace of the model satisfies (proofs/UdpProofs.v proves this for
+   [own_ok], [order_ok] and [fresh_ok]); corr/C09Corr.v evaluates them on the event logs recorded
+   from the real servePacket. The unobservable events (ERoute, EDrop, EForget) are not used. *)
+
+Definition addr_of (tr : list ev) (c : cid) : option addr :=
+  match find (fun x => Nat.eqb (fst x) c) (news tr) with Some x => Some (snd x) | None => None end.
+
+Fixpoint subseqb (l1 l2 : list pkt) : bool :=
+  match l1, l2 with
+  | [], _ => true
+  | _ :: _, [] => false
+  | x :: r1, y :: r2 => if pkt_eqb x y then subseqb r1 r2 else subseqb l1 r2
+  end.
+
+(* ownership: an association only reads datagrams from its own address and only writes to it *)
+Definition own_ok (tr : list ev) : bool :=
+  forallb (fun e => match e with
+    | ERead c p _ _ _ => match addr_of tr c with Some a => Nat.eqb (src p) a | None => false end
+    | EWrite c _ a => match addr_of tr c with Some a' => Nat.eqb a a' | None => false end
+    | _ => true end) tr.
+
+(* order: what an association takes is a subsequence of the arrivals from its address *)
+Definition order_ok (tr : list ev) : bool :=
+  forallb (fun x => subseqb (reads_of (fst x) tr) (from (snd x) (arrivals tr))) (news tr).
+
+Definition nat_in (x : nat) (l : list nat) : bool := existsb (Nat.eqb x) l.
+Fixpoint nodupb (l : list nat) : bool :=
+  match l with [] => true | x :: r => negb (nat_in x r) && nodupb r end.
+
+Definition all_reads (tr : list ev) : list pkt :=
+  flat_map (fun e => match e with ERead _ p true _ _ => [p] | _ => [] end) tr.
+(* no datagram is delivered twice (given distinct arrivals) *)
+Definition nodup_ok (tr : list ev) : bool :=
+  nodupb (map pid (arrivals tr)) && nodupb (map pid (all_reads tr)).
+
+(* the associations of one address are used one after the other: in arrival order, the readers
+   of an address's datagrams never return to an earlier association *)
+Definition reader_of (tr : list ev) (p : pkt) : option cid :=
+  match find (fun e => match e with ERead _ q true _ _ => pkt_eqb p q | _ => false end) tr with
+  | Some (ERead c _ _ _ _) => Some c
+  | _ => None
+  end.
+Fixpoint groupedb (seen : list cid) (cur : option cid) (l : list cid) : bool :=
+  match l with
+  | [] => true
+  | c :: r =>
+      match cur with
+      | Some c0 => if Nat.eqb c0 c then groupedb seen cur r
+                   else if nat_in c seen then false else groupedb (c0 :: seen) (Some c) r
+      | None => groupedb seen (Some c) r
+      end
+  end.
+Definition addrs_of (tr : list ev) : list addr := map snd (news tr).
+Definition grouped_ok (tr : list ev) : bool :=
+  forallb (fun a => groupedb [] None
+             (flat_map (fun p => match reader_of tr p with Some c => [c] | None => [] end) (from a (arrivals tr))))
+          (addrs_of tr).
+
+(* causality: an association exists before it does anything, a datagram arrives before it is read *)
+Fixpoint causal_go (pre : list ev) (tr : list ev) : bool :=
+  match tr with
+  | [] => true
+  | e :: r =>
+      (match e with
+       | ERead c p _ _ _ => existsb (fun x => Nat.eqb (fst x) c) (news pre) && existsb (pkt_eqb p) (arrivals pre)
+       | EEof c | EDeadline c | ERet c | EWrite c _ _ => existsb (fun x => Nat.eqb (fst x) c) (news pre)
+       | ENew c _ => negb (existsb (fun x => Nat.eqb (fst x) c) (news pre))
+       | _ => true
+       end) && causal_go (pre ++ [e]) r
+  end.
+Definition causal_ok (tr : list ev) : bool := causal_go [] tr.
+
+(* byte ranges: a datagram is served from offset 0 in consecutive pieces; a new datagram is only
+   begun when the previous one is exhausted (or Close has released it) *)
+Fixpoint chunk_lookup (c : cid) (st : list (cid * (option (pkt * nat) * bool))) : option (pkt * nat) * bool :=
+  match st with
+  | [] => (None, false)
+  | (c', v) :: r => if Nat.eqb c' c then v else chunk_lookup c r
+  end.
+Fixpoint chunks_go (st : list (cid * (option (pkt * nat) * bool))) (tr : list ev) : bool :=
+  match tr with
+  | [] => true
+  | e :: r =>
+      match e with
+      | ERead c p fresh off len =>
+          let '(cur, ret) := chunk_lookup c st in
+          let nxt := if off + len <? size p then Some (p, off + len) else None in
+          if fresh then
+            Nat.eqb off 0 && (len <=? size p) && (match cur with None => true | Some _ => ret end)
+            && chunks_go ((c, (nxt, ret)) :: st) r
+          else
+            match cur with
+            | Some (q, o) => pkt_eqb p q && Nat.eqb o off && (off + len <=? size p) && chunks_go ((c, (nxt, ret)) :: st) r
+            | None => false
+            end
+      | ERet c => let '(cur, _) := chunk_lookup c st in chunks_go ((c, (cur, true)) :: st) r
+      | _ => chunks_go st r
+      end
+  end.
+Definition chunks_ok (tr : list ev) : bool := chunks_go [] tr.
+
+(* one live association per address: when an association is created for address a, every earlier
+   association for a has seen EOF or has returned. Holds when a close notification identifies
+   the association; the code before the repair violates it (stale notification). *)
+Fixpoint fresh_go (pre : list ev) (tr : list ev) : bool :=
+  match tr with
+  | [] => true
+  | e :: r =>
+      (match e with
+       | ENew _ a => forallb (fun x => negb (Nat.eqb (snd x) a) || ended (fst x) pre) (news pre)
+       | _ => true
+       end) && fresh_go (pre ++ [e]) r
+  end.
+Definition fresh_ok (tr : list ev) : bool := fresh_go [] tr.
+
+Definition accepts (g : cfg) (tr : list ev) : bool :=
+  own_ok tr && order_ok tr && nodup_ok tr && grouped_ok tr && causal_ok tr && chunks_ok tr &&
+  (if notify_identity g then fresh_ok tr else true) &&
+  negb (existsb (fun e => match e with EPanic => true | _ => false end) tr).
+
+(* how many datagrams the server takes from the socket while no handler reads: feed datagrams
+   from one address, let the loop run after each, stop when the packets channel refuses one *)
+Fixpoint loop_quiesce (g : cfg) (fuel : nat) (s : state) : state :=
+  match fuel with
+  | O => s
+  | S f =>
+      match exec g s LoopSend with
+      | Some s' => loop_quiesce g f s'
+      | None => match exec g s LoopRecv with
+                | Some s' => loop_quiesce g f s'
+                | None => match exec g s LoopClose with
+                          | Some s' => loop_quiesce g f s'
+                          | None => s
+                          end
+                end
+      end
+  end.
+Fixpoint feed (g : cfg) (n i : nat) (s : state) (taken : nat) : nat :=
+  match n with
+  | O => taken
+  | S m => match exec g s (SockRecv {| src := 0; pid := i; size := 48 |}) with
+           | Some s' => feed g m (S i) (loop_quiesce g 4 s') (S taken)
+           | None => taken
+           end
+  end.
+(* the reader goroutine holds one more datagram while it is blocked on the full channel *)
+Definition back_model (g : cfg) (sent : nat) : nat :=
+  let k := feed g sent 0 init 0 in if k <? sent then S k else k.
